@@ -91,7 +91,7 @@ class LogicSanitizer:
         self.nviol = 0
         self.stats = dict(touches=0, operand_checks=0, ops=0, capture_rows=0, assign_rows=0)
         order, deps = W.line_deps(circuit, strip_forks=strip_forks)
-        self.exp_writer = {li: (d[1] if d[0] == 'alias' else li) for li, d in deps.items()}
+        self.exp_writer = {li: (d[1] if d[0] == 'alias' else (-1 if d[0] == 'zero' else li)) for li, d in deps.items()}
         nl = len(circuit.lines)
         self.tmp_idx = sim.tmp_idx
         self.ppo_expect = {}
@@ -201,6 +201,8 @@ class LogicSanitizer:
                 why = f'constant-0 row {r} was written by line {self.owner[r]}'
                 continue
             want = self.exp_writer.get(x, x)
+            if want == -1 and self.owner[r] == -1:
+                return
             if self.owner[r] == want and self.wepoch[r] == self.epoch and self.wlevel[r] < lv:
                 return
             why = (f'operation {k} (line {z}, level {lv}) reads operand line {x} (producer: line {want}) in row {r}: last written by line '
